@@ -50,6 +50,8 @@ def vary(rng, n):
             return AnnotatedH(n if not isinstance(n, AnnotatedH) else n.child, [rng.choice(AnnotatedH.JUNK)], False)
         if r < .42 and not isinstance(n, AnnotatedH):
             return AnnotatedH(n, [rng.choice(list(AnnotatedH.VALIDATORS))], True)
+        if r < .46:
+            return AnnotatedH(hints.AnyH('object'), [rng.choice(list(AnnotatedH.VALIDATORS))], True)
         if isinstance(n, Cls):
             if n.name in UP and rng.random() < .6:
                 return Cls(UP[n.name])
@@ -126,7 +128,10 @@ def vary(rng, n):
 
 
 def has_any(node):
-    return any(isinstance(x, hints.AnyH) or (isinstance(x, hints.NamedH) and x.ignorable())
+    # (an ignorable hint directly under validators - Annotated[object, Is[...]], the usual spelling of "a validator
+    # over any object" - is not ignorable any more: that one is in)
+    validated = {id(x.child) for x in node.walk() if isinstance(x, AnnotatedH) and x.validators and x.child.src == 'object'}
+    return any((isinstance(x, hints.AnyH) and id(x) not in validated) or (isinstance(x, hints.NamedH) and x.ignorable())
                or (isinstance(x, TypeH) and not x.class_names)          # type[Any]
                for x in node.walk())
 
@@ -139,7 +144,8 @@ def features(*nodes):
             if isinstance(x, Cls) and x.name in ('Hashable', 'Sized'):
                 f.add('abc-subclasshook')
             elif isinstance(x, hints.NamedH):
-                f.add(x.kind.split(':')[0])
+                # (a user generic whose pseudo-superclass nests its TypeVar inside a child hint is a mechanism of its own)
+                f.add('generic-nested-typevar' if x.kind == 'generic:type-of-typevar' else x.kind.split(':')[0])
             elif isinstance(x, AnnotatedH):
                 f.add('annotated')
             elif isinstance(x, LiteralH):
@@ -171,8 +177,8 @@ def features(*nodes):
                 in_union.add('annotated')
             elif isinstance(x, hints.NamedH) and x.kind.split(':')[0] == 'typevar' and isinstance(x.under, hints.UnionH):
                 in_union.add('typevar')
-    for p in ('abc-subclasshook', 'shallow-Callable', 'typevar', 'newtype', 'annotated', 'literal', 'generic',
-              'protocol', 'pep695', 'type'):
+    for p in ('abc-subclasshook', 'shallow-Callable', 'typevar', 'newtype', 'annotated', 'literal',
+              'generic-nested-typevar', 'generic', 'protocol', 'pep695', 'type'):
         if p in f:
             return [p + ('-with-union' if p in in_union else '')]
     return sorted(f)[:1] or ['plain']
